@@ -16,6 +16,8 @@ Safety oracles:
 """
 from __future__ import annotations
 
+import copy
+
 from typing import Any, Dict, List, Optional
 
 from dst.core import Violation, jsonable
@@ -37,7 +39,7 @@ class C16Run(E2Run):
         self.sessions: List[Dict] = []  # remote sessions: client, server, user, last, state (live|dead|unknown)
         self.knobs: Dict[str, Dict] = {n.config.hostname: {"timeout": 30, "max": 3} for n in self.hosts}
         self.n_probe = 0
-        self.calls.update({"set_knobs": self.call_set_knobs})
+        self.calls.update({"set_knobs": self.call_set_knobs, "api_local_login": self.call_api_local_login})
         self.ip = {n.config.hostname: str(n.network_interface[1].ip_address) for n in self.hosts}
         self.by_ip = {v: k for k, v in self.ip.items()}
 
@@ -48,6 +50,24 @@ class C16Run(E2Run):
         usm.local_session_timeout_steps = timeout if local_timeout is None else local_timeout
         usm.max_remote_sessions = max_sessions
         self.knobs[node] = {"timeout": timeout, "max": max_sessions}
+
+    def call_api_local_login(self, node: str, user: str, password: str):
+        """Node.local_login - the public Python entry point a scripted agent or notebook uses; it bypasses the request
+        tree's node-is-on rule, so the session manager's own power guard is what keeps a node that is OFF, BOOTING or
+        SHUTTING_DOWN from accepting a login."""
+        n = self.node(node)
+        state = n.operating_state.name
+        a = self.acct.get(node, {}).get(user)
+        sid = n.local_login(user, password)
+        if sid is not None:
+            if state != "ON":
+                raise Violation("C16", "login-succeeded-without-valid-conditions", f"local login (Node.local_login) on {node} as {user} succeeded while the node is {state}", sig="login-succeeded-without-valid-conditions:node " + state, detail={"state": state})
+            if a is None or a["disabled"] or a["password"] != password:
+                raise Violation("C16", "login-succeeded-without-valid-conditions", f"local login (Node.local_login) on {node} as {user}/{password} succeeded; model account {a}", sig="login-succeeded-without-valid-conditions:local api", detail={"model_account": a})
+            self.probe("c16_api_local_login_ok")
+            n.local_logout()
+        elif state != "ON":
+            self.probe("c16_api_local_login_refused_node_" + state)
 
     # -- model helpers ---------------------------------------------------------------------------------------------
     def srv_time(self, server: str) -> int:
@@ -284,6 +304,25 @@ class C16Run(E2Run):
                 probe = f"probe_{self.n_probe}"
                 self.emit(["req", base + ["service", "terminal", "send_remote_command", self.ip[bn], {"command": ["file_system", "create", "folder", probe]}], "command", {"kind": "remote_command", "target": bn, "probe": probe}])
                 self.probe("c16_server_sleeps_past_timeout_motif")
+            elif x < 0.11 and others:
+                # logins that land inside the server's shut-down or start-up window (durations 1-2 ticks): a node that
+                # is SHUTTING_DOWN or BOOTING is not powered on
+                u = r.choice(list(self.acct[bn]))
+                pw = self.acct[bn][u]["password"]
+                login = ["req", base + ["service", "terminal", "node_session_remote_login", u, pw, self.ip[bn]], "login", {"kind": "remote_login", "target": bn, "user": u, "password": pw}]
+                self.emit(["req", ["network", "node", bn, "shutdown"], "F1_power", {"kind": "power"}])
+                for _ in range(r.choice([0, 0, 1])):
+                    self.emit(["tick"])
+                self.emit(copy.deepcopy(login))
+                self.emit(["call", "api_local_login", {"node": bn, "user": u, "password": pw}])
+                for _ in range(b.config.shut_down_duration + 1):
+                    self.emit(["tick"])
+                self.emit(["req", ["network", "node", bn, "startup"], "F1_power", {"kind": "power"}])
+                for _ in range(r.choice([0, 0, 1])):
+                    self.emit(["tick"])
+                self.emit(copy.deepcopy(login))
+                self.emit(["call", "api_local_login", {"node": bn, "user": u, "password": pw}])
+                self.probe("c16_login_inside_power_transition_motif")
             elif x < 0.22:
                 self.emit(["tick"])
             elif x < 0.40:
